@@ -275,6 +275,8 @@ def run_check(prop, tier, seed_value, examples=None, only_profile=None, workers=
     # --- 1. regression tier: committed replays -------------------------------------------------
     reg_dir = os.path.join(core.VERIF, "replays", "regress", prop)
     reg_files = sorted(glob.glob(os.path.join(reg_dir, "*.json")))
+    if os.environ.get("VERIF_SKIP_REGRESS"):      # sensitivity experiments only: judge the generated search alone
+        reg_files = [f for f in reg_files if os.path.basename(f).startswith("known-")]
     pinned = {os.path.normpath(os.path.join(core.VERIF, e.replay)): e for e in known if e.replay}
     reg_run = 0
     known_reported = set()
@@ -372,7 +374,8 @@ def run_check(prop, tier, seed_value, examples=None, only_profile=None, workers=
             buckets[key] = (size, v)
     for (pname, clause), (_, v) in sorted(buckets.items()):
         h = "%016x" % core.case_hash(v["case"])
-        path = os.path.join(core.VERIF, "replays", "found", "%s-%s-%s.json" % (prop, clause.replace(".", "_"), h[:10]))
+        path = os.path.join(os.environ.get("VERIF_FOUND_DIR") or os.path.join(core.VERIF, "replays", "found"),
+                            "%s-%s-%s.json" % (prop, clause.replace(".", "_"), h[:10]))
         core.write_replay(path, prop, pname, v["case"], v["failures"],
                           {"seed": seed_value, "tier": tier, "shard": v["shard"], "repo_commit": commit})
         violations += 1
@@ -423,7 +426,8 @@ def run_check(prop, tier, seed_value, examples=None, only_profile=None, workers=
                 "wall_s": round(time.time() - t0, 2), "violations": int(violations)}
     if evaluations > 0 and inconclusive > max(3, 0.02 * evaluations):
         harness_errors.append("too many inconclusive cases: %d of %d" % (inconclusive, evaluations))
-    ev_path = os.path.join(core.VERIF, "evidence", "%s.json" % prop)
+    # experiments against scratch trees (VERIF_REPO) must not overwrite the evidence of the real tree
+    ev_path = os.path.join(os.environ.get("VERIF_EVIDENCE_DIR") or os.path.join(core.VERIF, "evidence"), "%s.json" % prop)
     os.makedirs(os.path.dirname(ev_path), exist_ok=True)
     with open(ev_path, "w") as f:
         json.dump(evidence, f, indent=1, default=str)
